@@ -31,6 +31,7 @@ package scan
 // currentStep, currentStep+step, ... (at most numSteps of them, none beyond maxt).
 // The grid is stated recursively (first = cursor, next = previous + step) to stay linear.
 //@ func (*numberLiteralSelector).Next
+//@   refines model.VectorOperator.Next
 //@   requires ctx != nil && o != nil && o.vectorPool != nil && o.step >= 0 && o.numSteps >= 1
 //@   requires o.step == 0 ==> o.numSteps == 1
 //@   assigns scan.numberLiteralSelector.step, scan.numberLiteralSelector.currentStep, scan.numberLiteralSelector.series, scan.numberLiteralSelector.once, model.VectorPool.stepSize
@@ -57,6 +58,7 @@ package scan
 //@       vectors[k].SampleIDs[0] == 0 && vectors[k].Samples[0] == o.val &&
 //@       allocated(vectors[k].SampleIDs) && allocated(vectors[k].Samples)
 //@   loop 0 invariant batch-allocated: allocated(vectors) && fresh(vectors)
+//@   loop 0 invariant[C18] step-vectors-own-their-buffers: ownBuffers(vectors, len(vectors)) && sepBuffers(vectors, len(vectors))
 
 // Constructors: every field is taken from the option it is named after (C02, C03, C07). The
 // number of steps per batch is Options.NumSteps.
@@ -195,6 +197,7 @@ package scan
 //@   assigns scan.vectorSelector.scanners, scan.vectorSelector.series, scan.vectorSelector.once, model.VectorPool.stepSize
 //@   ensures result == nil ==> vsLoaded(o) && vsSought(o, 0, len(o.scanners), o.currentStep - o.offset)
 //@ func (*vectorSelector).Next
+//@   refines model.VectorOperator.Next
 //@   requires ctx != nil && vsShape(o)
 //@   requires series-loaded-once: o.once != 0 ==> vsLoaded(o) && vsSought(o, 0, len(o.scanners), o.currentStep - o.offset)
 //@   panics may
@@ -223,6 +226,7 @@ package scan
 //@   loop 0 invariant vectors0: forall k in 0..currStep :: vectors[k].T == ts + k*o.step && vectors[k].T <= o.maxt &&
 //@       len(vectors[k].SampleIDs) == len(vectors[k].Samples) && allocated(vectors[k].SampleIDs) && allocated(vectors[k].Samples)
 //@   loop 0 invariant sought0: vsSought(o, 0, len(o.scanners), ts - o.offset)
+//@   loop 0 invariant[C18] step-vectors-own-their-buffers0: ownBuffers(vectors, len(vectors)) && sepBuffers(vectors, len(vectors))
 //@   loop 1 invariant batch1a: vsShape(o) && 0 <= i && i <= len(o.scanners)
 //@   loop 1 invariant loaded1: vsStruct(o) && vsDistinct(o)
 //@   loop 1 invariant memo1: vsMemo(o, 0, len(o.scanners))
@@ -231,12 +235,14 @@ package scan
 //@   loop 1 invariant batch1d: ts == old(o.currentStep) && o.currentStep == old(o.currentStep) && o.step == old(o.step) && o.numSteps == old(o.numSteps) && o.maxt == old(o.maxt)
 //@   loop 1 invariant[C02,C07] every-series-is-consulted-at-every-step-of-the-batch: i >= 1 ==> visited == len(vectors)
 //@   loop 1 invariant vectors1: vsVectors(o, vectors, ts)
+//@   loop 1 invariant[C18] step-vectors-own-their-buffers1: ownBuffers(vectors, len(vectors)) && sepBuffers(vectors, len(vectors))
 //@   loop 1 invariant sought1: vsSought(o, 0, i, vectors[len(vectors)-1].T - o.offset) && vsSought(o, i, len(o.scanners), ts - o.offset)
 //@   loop 2 invariant batch2: vsBatch(o, vectors, ts) && 0 <= i && i < len(o.scanners) && 0 <= currStep && currStep <= len(vectors) && seriesTs == ts + currStep*o.step &&
 //@       series.samples == o.scanners[i].samples && series.signature == o.scanners[i].signature
 //@   loop 2 invariant memo2-others: vsMemo(o, 0, i) && vsMemo(o, i+1, len(o.scanners))
 //@   loop 2 invariant memo2-this: memo_inv(o.scanners[i].samples.sn, o.scanners[i].samples.sT, o.scanners[i].samples.cur, o.scanners[i].samples.hasPrev, o.scanners[i].samples.lastSeek, o.scanners[i].samples.delta)
 //@   loop 2 invariant visited2: visited == currStep
+//@   loop 2 invariant[C18] step-vectors-own-their-buffers2: ownBuffers(vectors, len(vectors)) && sepBuffers(vectors, len(vectors))
 //@   loop 2 invariant vectors2: vsVectors(o, vectors, ts)
 //@   loop 2 invariant sought2-done: vsSought(o, 0, i, vectors[len(vectors)-1].T - o.offset)
 //@   loop 2 invariant sought2-todo: vsSought(o, i+1, len(o.scanners), ts - o.offset)
@@ -274,6 +280,7 @@ package scan
 //@   ensures result == nil ==> msStruct(o) && (forall i in 0..len(o.scanners) :: msBuf(o, i)) && (forall i in 0..len(o.scanners) :: msWin(o, i)) &&
 //@       (forall i in 0..len(o.scanners) :: msNext(o, i, o.currentStep - o.offset))
 //@ func (*matrixSelector).Next
+//@   refines model.VectorOperator.Next
 //@   requires ctx != nil && msShape(o)
 //@   requires series-loaded-once: o.once != 0 && o.currentStep <= o.maxt ==> msStruct(o) && (forall i in 0..len(o.scanners) :: msBuf(o, i)) &&
 //@       (forall i in 0..len(o.scanners) :: msWin(o, i)) && (forall i in 0..len(o.scanners) :: msNext(o, i, o.currentStep - o.offset))
@@ -295,6 +302,7 @@ package scan
 //@       stepTs == ts + currStep*o.step && ts <= o.maxt && ts == old(o.currentStep) && o.currentStep == old(o.currentStep) && o.step == old(o.step) && o.numSteps == old(o.numSteps) && o.maxt == old(o.maxt)
 //@   loop 0 invariant vectors0: forall k in 0..currStep :: vectors[k].T == ts + k*o.step && vectors[k].T <= o.maxt &&
 //@       len(vectors[k].SampleIDs) == len(vectors[k].Samples) && allocated(vectors[k].SampleIDs) && allocated(vectors[k].Samples)
+//@   loop 0 invariant[C18] step-vectors-own-their-buffers0: ownBuffers(vectors, len(vectors)) && sepBuffers(vectors, len(vectors))
 //@   loop 0 invariant loaded0: msStruct(o) && (forall i in 0..len(o.scanners) :: msBuf(o, i)) && (forall i in 0..len(o.scanners) :: msWin(o, i)) &&
 //@       (forall i in 0..len(o.scanners) :: msNext(o, i, ts - o.offset))
 //@   at line "o.currentStep += o.step * int64(o.numSteps)" assert steps-of-the-batch-times-step: o.step >= 1 ==> len(vectors)*o.step <= o.numSteps*o.step
@@ -307,6 +315,7 @@ package scan
 //@       ts == old(o.currentStep) && o.currentStep == old(o.currentStep) && o.step == old(o.step) && o.numSteps == old(o.numSteps) && o.maxt == old(o.maxt)
 //@   loop 1 invariant vectors1: forall k in 0..len(vectors) :: vectors[k].T == ts + k*o.step && vectors[k].T <= o.maxt &&
 //@       len(vectors[k].SampleIDs) == len(vectors[k].Samples) && allocated(vectors[k].SampleIDs) && allocated(vectors[k].Samples)
+//@   loop 1 invariant[C18] step-vectors-own-their-buffers1: ownBuffers(vectors, len(vectors)) && sepBuffers(vectors, len(vectors))
 //@   loop 1 invariant bufs1: forall j in 0..len(o.scanners) :: msBuf(o, j)
 //@   loop 1 invariant wins1: forall j in 0..len(o.scanners) :: msWin(o, j)
 //@   loop 1 invariant next-done1: o.step >= 1 ==> forall j in 0..i :: msNext(o, j, vectors[len(vectors)-1].T + o.step - o.offset)
@@ -317,6 +326,7 @@ package scan
 //@       0 <= currStep && currStep <= len(vectors) && seriesTs == ts + currStep*o.step && series.samples == o.scanners[i].samples && series.signature == o.scanners[i].signature
 //@   loop 2 invariant vectors2: forall k in 0..len(vectors) :: vectors[k].T == ts + k*o.step && vectors[k].T <= o.maxt &&
 //@       len(vectors[k].SampleIDs) == len(vectors[k].Samples) && allocated(vectors[k].SampleIDs) && allocated(vectors[k].Samples)
+//@   loop 2 invariant[C18] step-vectors-own-their-buffers2: ownBuffers(vectors, len(vectors)) && sepBuffers(vectors, len(vectors))
 //@   loop 2 invariant bufs2: forall j in 0..len(o.scanners) :: msBuf(o, j)
 //@   loop 2 invariant wins2-before: forall j in 0..i :: msWin(o, j)
 //@   loop 2 invariant wins2-after: forall j in i+1..len(o.scanners) :: msWin(o, j)
